@@ -9,7 +9,7 @@ From SF Require Import Base.Prelude Core.Events Cbor.Spec Cbor.Enc Cbor.Parse Cb
 Theorem C08_cbor_cbor : forall b v, all_bytes b = true -> (zlen b <=? MaxInt64) = true -> cbor_decode b = RValue v [] ->
   forall cs, concat cs = b ->
   exists evs out, run_chunks None cs = Ok (evs, nilE) /\ cbor_encode evs = Some out /\ cbor_decode out = RValue v [].
-Proof. exact ComposeProofs.C08_cbor_cbor. Qed.
+Proof. exact SF.Cbor.ComposeProofs.C08_cbor_cbor. Qed.
 Print Assumptions C08_cbor_cbor.
 
 (* Concatenated streams of documents: whatever the parser accepts is re-encoded to a
@@ -17,5 +17,135 @@ Print Assumptions C08_cbor_cbor.
 Theorem C08_cbor_cbor_stream : forall b evs, all_bytes b = true -> (zlen b <=? MaxInt64) = true ->
   run_parse None b = Ok (evs, nilE) ->
   exists out vs, cbor_encode evs = Some out /\ cbor_decode_all (S (length b)) b = Some vs /\ cbor_decode_all (S (length out)) out = Some vs.
-Proof. exact ComposeProofs.C08_cbor_cbor_stream. Qed.
+Proof. exact SF.Cbor.ComposeProofs.C08_cbor_cbor_stream. Qed.
 Print Assumptions C08_cbor_cbor_stream.
+
+(* The other eight pairs (proofs: Core/ComposeProofs.v, composing C04/C05/C06 - reference
+   decoder => parser -, C02 - chunking - and C07 - encoder => reference decoder).  Each says:
+   for every source document the SOURCE format's reference decoder accepts with value v, the
+   source parser model accepts it (Parse; and every chunking, for UBJSON every chunking that
+   returns) with the events of a well-formed tree t' of value v, and the target encoder model
+   turns exactly these events into a document that the TARGET format's reference decoder reads
+   as the target image of t' (CBOR: v itself; UBJSON: ubj_img t' - integers above MaxInt64 as
+   decimal strings, finding F1; JSON: json_img cfg t' - sanitized strings, floats through
+   strconv).  Side conditions: source shorter than 2^63 bytes; UBJSON sources satisfy the
+   resource guard of C06 (finding F2); JSON targets need finite floats or ignoreInvalidFloat. *)
+From SF Require Ubjson.Spec Ubjson.Enc Ubjson.Img Ubjson.Parse Ubjson.ConformanceProofs Core.ComposeProofs.
+From SF Require Json.Spec Json.Enc Json.Parse Json.EncProofs Json.RoundtripProofs.
+Module U := SF.Ubjson.Parse.
+Module CC := SF.Core.ComposeProofs.
+Import SF.Ubjson.Spec SF.Ubjson.Enc SF.Ubjson.Img SF.Ubjson.ConformanceProofs.
+
+Theorem C08_cbor_ubj : forall b v, all_bytes b = true -> (zlen b <=? MaxInt64) = true ->
+  cbor_decode b = RValue v [] ->
+  forall cs, concat cs = b ->
+  exists t' out, run_chunks None cs = Ok (flatten t', nilE) /\
+    wf_tree t' = true /\ cv (value_of t') = v /\
+    ubj_encode (flatten t') = Some out /\ ubj_decode out = RValue (ubj_img t') [].
+Proof. exact CC.C08_cbor_ubj. Qed.
+Print Assumptions C08_cbor_ubj.
+
+Theorem C08_ubj_cbor : forall b v, all_bytes b = true -> (zlen b <=? MaxInt64) = true ->
+  no_huge_zero_typed b = true -> ubj_decode b = RValue v [] ->
+  exists t' p out, U.urun_parse None b = Ok (flatten t', U.unilE, p) /\
+    wf_tree t' = true /\ cv (value_of t') = v /\
+    cbor_encode (flatten t') = Some out /\ cbor_decode out = RValue v [] /\
+    forall cs r, concat cs = b -> U.urun_chunks None cs = Ok r -> fst r = (flatten t', U.unilE).
+Proof. exact CC.C08_ubj_cbor. Qed.
+Print Assumptions C08_ubj_cbor.
+
+Theorem C08_ubj_ubj : forall b v, all_bytes b = true -> (zlen b <=? MaxInt64) = true ->
+  no_huge_zero_typed b = true -> ubj_decode b = RValue v [] ->
+  exists t' p out, U.urun_parse None b = Ok (flatten t', U.unilE, p) /\
+    wf_tree t' = true /\ cv (value_of t') = v /\
+    ubj_encode (flatten t') = Some out /\ ubj_decode out = RValue (ubj_img t') [] /\
+    forall cs r, concat cs = b -> U.urun_chunks None cs = Ok r -> fst r = (flatten t', U.unilE).
+Proof. exact CC.C08_ubj_ubj. Qed.
+Print Assumptions C08_ubj_ubj.
+
+Section C08Json.
+  Import SF.Json.Spec SF.Json.Enc SF.Json.Parse.
+  Variable ffmt : Z -> Z -> bytes.
+  Variable pf : bytes -> option Z.
+  Variable fimg : Z -> Z -> cnum.
+  Variable fbits_r : Z -> Z -> Z.
+  Hypothesis ffmt_number : forall w bits, w = 32 \/ w = 64 -> in_u w bits = true -> nonfinite w bits = false ->
+     exists isint, json_number (ffmt w bits) = NumOk (ffmt w bits) isint [] /\
+                   json_num_value pf (ffmt w bits) isint = Some (fimg w bits).
+  Hypothesis ffmt_chars : forall w bits, w = 32 \/ w = 64 -> in_u w bits = true -> nonfinite w bits = false ->
+     Forall (fun c => In c SF.Json.EncProofs.fchars) (ffmt w bits).
+  Hypothesis pf_radix : forall w bits, w = 32 \/ w = 64 -> in_u w bits = true -> nonfinite w bits = false ->
+     snd (radix_scan (ffmt w bits) 0) = true ->
+     pf (SF.Json.RoundtripProofs.radix_patch (ffmt w bits)) = Some (fbits_r w bits).
+  Hypothesis pf_ok : forall l z, pf l = Some z -> in_u 64 z = true.
+  Notation jimg := (SF.Json.RoundtripProofs.json_img ffmt fimg (fun w bits => CF64 (fbits_r w bits))).
+
+  Theorem C08_json_cbor : forall b v, all_bytes b = true -> (zlen b <=? MaxInt64) = true ->
+    json_decode pf b = RValue v [] ->
+    exists t' p out, jrun_parse pf None b = Ok (flatten t', jpnil, p) /\
+      wf_tree t' = true /\ cv (value_of t') = v /\
+      cbor_encode (flatten t') = Some out /\ cbor_decode out = RValue v [] /\
+      forall cs, concat cs = b -> exists p', jrun_chunks pf None cs = Ok (flatten t', jpnil, p').
+  Proof. exact (CC.C08_json_cbor pf pf_ok). Qed.
+
+  Theorem C08_json_ubj : forall b v, all_bytes b = true -> (zlen b <=? MaxInt64) = true ->
+    json_decode pf b = RValue v [] ->
+    exists t' p out, jrun_parse pf None b = Ok (flatten t', jpnil, p) /\
+      wf_tree t' = true /\ cv (value_of t') = v /\
+      ubj_encode (flatten t') = Some out /\ ubj_decode out = RValue (ubj_img t') [] /\
+      forall cs, concat cs = b -> exists p', jrun_chunks pf None cs = Ok (flatten t', jpnil, p').
+  Proof. exact (CC.C08_json_ubj pf pf_ok). Qed.
+
+  Theorem C08_cbor_json : forall cfg b v, all_bytes b = true -> (zlen b <=? MaxInt64) = true ->
+    cbor_decode b = RValue v [] -> (ignore_invalid cfg = true \/ CC.cv_finite v = true) ->
+    forall cs, concat cs = b ->
+    exists t' e', run_chunks None cs = Ok (flatten t', nilE) /\
+      wf_tree t' = true /\ cv (value_of t') = v /\
+      json_run cfg ffmt (jenc0 None) (flatten t') 0 = JRun e' None /\
+      all_bytes (w_bytes (je_w e')) = true /\
+      json_decode pf (w_bytes (je_w e')) = RValue (jimg cfg t') [].
+  Proof. exact (CC.C08_cbor_json ffmt pf fimg fbits_r ffmt_number ffmt_chars pf_radix). Qed.
+
+  Theorem C08_ubj_json : forall cfg b v, all_bytes b = true -> (zlen b <=? MaxInt64) = true ->
+    no_huge_zero_typed b = true -> ubj_decode b = RValue v [] ->
+    (ignore_invalid cfg = true \/ CC.cv_finite v = true) ->
+    exists t' p e', U.urun_parse None b = Ok (flatten t', U.unilE, p) /\
+      wf_tree t' = true /\ cv (value_of t') = v /\
+      json_run cfg ffmt (jenc0 None) (flatten t') 0 = JRun e' None /\
+      all_bytes (w_bytes (je_w e')) = true /\
+      json_decode pf (w_bytes (je_w e')) = RValue (jimg cfg t') [] /\
+      forall cs r, concat cs = b -> U.urun_chunks None cs = Ok r -> fst r = (flatten t', U.unilE).
+  Proof. exact (CC.C08_ubj_json ffmt pf fimg fbits_r ffmt_number ffmt_chars pf_radix). Qed.
+
+  Theorem C08_json_json : forall cfg b v, all_bytes b = true ->
+    json_decode pf b = RValue v [] -> (ignore_invalid cfg = true \/ CC.cv_finite v = true) ->
+    exists t' p e', jrun_parse pf None b = Ok (flatten t', jpnil, p) /\
+      wf_tree t' = true /\ cv (value_of t') = v /\
+      json_run cfg ffmt (jenc0 None) (flatten t') 0 = JRun e' None /\
+      all_bytes (w_bytes (je_w e')) = true /\
+      json_decode pf (w_bytes (je_w e')) = RValue (jimg cfg t') [] /\
+      forall cs, concat cs = b -> exists p', jrun_chunks pf None cs = Ok (flatten t', jpnil, p').
+  Proof. exact (CC.C08_json_json ffmt pf fimg fbits_r ffmt_number ffmt_chars pf_radix pf_ok). Qed.
+End C08Json.
+Print Assumptions C08_json_cbor.
+Print Assumptions C08_json_ubj.
+Print Assumptions C08_cbor_json.
+Print Assumptions C08_ubj_json.
+Print Assumptions C08_json_json.
+
+(* non-vacuity: the strconv hypotheses are jointly satisfiable (toy oracles of
+   Core/ComposeProofs.v, ComposeExamples), and a concrete pipeline UBJSON -> CBOR -> JSON ->
+   UBJSON with chunked parsing on a document with typed containers, a float and 2^64-1 computes
+   as the theorems say (ComposeExamples.pipeline, by vm_compute) *)
+Theorem C08_json_cbor_instance : forall b v, all_bytes b = true -> (zlen b <=? MaxInt64) = true ->
+  SF.Json.Spec.json_decode CC.ComposeExamples.toy_pf b = RValue v [] ->
+  exists t' p out, SF.Json.Parse.jrun_parse CC.ComposeExamples.toy_pf None b = Ok (flatten t', SF.Json.Parse.jpnil, p) /\
+    wf_tree t' = true /\ cv (value_of t') = v /\
+    cbor_encode (flatten t') = Some out /\ cbor_decode out = RValue v [] /\
+    forall cs, concat cs = b -> exists p', SF.Json.Parse.jrun_chunks CC.ComposeExamples.toy_pf None cs = Ok (flatten t', SF.Json.Parse.jpnil, p').
+Proof. exact CC.ComposeExamples.C08_json_cbor_toy. Qed.
+Print Assumptions C08_json_cbor_instance.
+
+Theorem C08_pipeline_sample_wf : wf_tree CC.ComposeExamples.sample = true.
+Proof. exact (proj1 CC.ComposeExamples.pipeline). Qed.
+Print Assumptions C08_pipeline_sample_wf.
